@@ -140,7 +140,7 @@ def build(v, ns):
     return v
 
 
-def mutate_in_place(p, top):
+def mutate_in_place(p, top, grow=True):
     """change every mutable object reachable from p without assigning to p's own attributes: lists grow, nested packets change"""
     from bisturi.packet import Packet
     for name, _, _, _ in p.get_fields():
@@ -151,10 +151,11 @@ def mutate_in_place(p, top):
         if isinstance(v, list):
             for x in v:
                 if isinstance(x, Packet):
-                    mutate_in_place(x, False)
-            v.append(7)
+                    mutate_in_place(x, False, grow)
+            if grow:
+                v.append(7)
         elif isinstance(v, Packet):
-            mutate_in_place(v, False)
+            mutate_in_place(v, False, grow)
         elif not top and isinstance(v, int) and not isinstance(v, bool):
             try:
                 setattr(p, name, v ^ 1)
@@ -228,6 +229,13 @@ def run_case(c, ns):
                 return {"ok": canon(p), "end": end, "packed": outcome_of_exception(e)}
         if op == "default":
             return {"ok": canon(build(c["value"], ns))}
+        if op == "default_pair":
+            # two default-constructed packets; one of them changed in place as deep as it goes: they must then be unequal
+            p1, p2 = build(c["value"], ns), build(c["value"], ns)
+            before = json.dumps(canon(p1), sort_keys=True)
+            mutate_in_place(p1, True, grow=False)      # only fields of nested packets change: the lists keep their length
+            changed = json.dumps(canon(p1), sort_keys=True) != before
+            return {"ok": {"changed": changed, "eq": bool(p1 == p2), "ne": bool(p1 != p2), "eq_rev": bool(p2 == p1)}}
         if op == "default_after":
             # a default-constructed packet, mutated in place as deep as it goes; then ANOTHER default-constructed packet
             first = build(c["value"], ns)
@@ -263,9 +271,17 @@ def run_case(c, ns):
                 variants.append((raw + bytes(rnd.choice([0, 10, 58, 65, 255]) for _ in range(rnd.randrange(1, 4))), 0, "suffix"))
             out = []
             for r, off, kind in variants:
-                out.append({"raw": r.hex(), "offset": off, "variant": kind,
-                            "outcome": run_case({"cls": c["cls"], "op": "roundtrip", "raw": r.hex(), "offset": off,
-                                                 "record": c.get("record")}, ns)})
+                oc = run_case({"cls": c["cls"], "op": "roundtrip", "raw": r.hex(), "offset": off, "record": c.get("record")}, ns)
+                # the public entry point Cls.unpack(raw, offset) must show exactly what unpack_impl shows (values, phase, stack)
+                try:
+                    pub = {"ok": canon(cls.unpack(r, off))}
+                except Exception as e:
+                    pub = outcome_of_exception(e)
+                same = (pub.get("ok") == oc.get("ok")) if ("ok" in pub or "ok" in oc) else \
+                    (pub.get("err") == oc.get("err") and pub.get("stack") == oc.get("stack") and pub.get("exc") == oc.get("exc"))
+                if not same:
+                    oc["api_differs"] = pub
+                out.append({"raw": r.hex(), "offset": off, "variant": kind, "outcome": oc})
             return {"packed": {"ok": raw.hex()}, "derived": out}
         if op == "regexp":
             from bisturi.pattern_matching import Any, filter as pfilter
